@@ -95,6 +95,19 @@ def execute_econ_ic(case):
                 break
             if float(val) == 0.0:
                 stats['probes']['explicit_zero_initial_condition'] = 1
+        # exogenous paths given to SetExogenous (list, tuple, string) are read back verbatim
+        from .. import econref as R
+        d = R.declare(case['ops'])
+        for (sh, var, value, as_tuple) in d.exogenous:
+            if sh not in d.sectors or viol:
+                continue
+            name = R.full_code(d, sh) + '__' + var
+            vals = list(eval(value, {'__builtins__': {}}, {})) if isinstance(value, str) else list(value)
+            if name not in ts or ts[name] != vals[0:T + 1]:
+                viol.append(core.violation(ID, 'exogenous-not-verbatim', 'exogenous-not-verbatim:model-level', var=name,
+                                           got=ts.get(name), want=vals[0:T + 1]))
+                break
+            stats['probes']['model_exogenous_read_back'] = 1
         for name, ser in ts.items():
             if len(ser) != T + 1 and not viol:
                 viol.append(core.violation(ID, 'length-mismatch', 'length-mismatch', var=name, got=len(ser), want=T + 1))
